@@ -269,7 +269,7 @@ func oracle(_ any, f []string, out string) (string, string) {
 		if rr.To != len(src) {
 			reported := false
 			for _, e := range errs {
-				if e.Context.From == rr.To && e.Context.To == rr.To+1 && strings.HasPrefix(e.Message, "unexpected rune ") {
+				if e.Context.From == rr.To && e.Context.To > rr.To && strings.HasPrefix(e.Message, "unexpected rune ") {
 					reported = true
 				}
 			}
